@@ -1086,3 +1086,16 @@ package kafka
 //@   loop 2 invariant forall kid ref, p int :: inmap(R, kid) && haskey(mapat(R, kid), p) ==> (exists i, j :: 0 <= i && i < len(offsets.Responses) && 0 <= j && j < len(offsets.Responses[i].PartitionResponses) && keyof(offsets.Responses[i].Topic) == kid && p == int(offsets.Responses[i].PartitionResponses[j].Partition) && mapat(R, kid)[p] == ite(offsets.Responses[i].PartitionResponses[j].Offset < 0, cg.config.StartOffset, offsets.Responses[i].PartitionResponses[j].Offset))
 //@   loop 3 invariant R != nil && (forall kid ref :: inmap(R, kid) ==> mapat(R, kid) != nil) && offsetsByPartition != nil && haskey(R, res.Topic) && R[res.Topic] == offsetsByPartition && (forall kid ref :: inmap(R, kid) && kid != keyof(res.Topic) ==> mapat(R, kid) != offsetsByPartition)
 //@   loop 3 invariant forall kid ref, p int :: inmap(R, kid) && haskey(mapat(R, kid), p) ==> (exists i, j :: 0 <= i && i < len(offsets.Responses) && 0 <= j && j < len(offsets.Responses[i].PartitionResponses) && keyof(offsets.Responses[i].Topic) == kid && p == int(offsets.Responses[i].PartitionResponses[j].Partition) && mapat(R, kid)[p] == ite(offsets.Responses[i].PartitionResponses[j].Offset < 0, cg.config.StartOffset, offsets.Responses[i].PartitionResponses[j].Offset))
+
+//@ property C15
+
+// The partition watcher keeps a generation alive only while the watched topic still has the number of partitions it had
+// when the generation started: a successful lookup that reports any other count (more or fewer) ends the generation.
+//@ func (*Generation).logError
+//@   trusted logging
+//@ iface coordinator.readPartitions
+//@   trusted asks the coordinator connection for the partitions of the topics
+//@ func (*Generation).partitionWatcher$1
+//@   option noframe
+//@   modifies heap
+//@   loop 0 step err#1 == nil ==> len(ops#1) == oParts
